@@ -75,6 +75,34 @@ func (c vLogCore) Write(e zapcore.Entry, _ []zapcore.Field) error {
 	return nil
 }
 
+// ---- contexts of lifecycle calls ------------------------------------------------------------------------
+// A context given to Start/Shutdown is only valid for the call.  Every Start/Shutdown of the harness
+// gets, in rotation: context.Background(); a cancellable context cancelled right after the call
+// returned; a context whose deadline passes right after the call; a context that is already
+// cancelled.  The limiter must not tie the shared checker's life (or the effect of Shutdown) to it.
+var vCtxCounter atomic.Int64
+
+func vWithCtx(f func(context.Context) error) error {
+	switch vCtxCounter.Add(1) % 4 {
+	case 1:
+		ctx, cancel := context.WithCancel(context.Background())
+		e := f(ctx)
+		cancel()
+		return e
+	case 2:
+		ctx, cancel := context.WithTimeout(context.Background(), 200*time.Microsecond)
+		e := f(ctx)
+		<-ctx.Done()
+		cancel()
+		return e
+	case 3:
+		ctx, cancel := context.WithCancel(context.Background())
+		cancel()
+		return f(ctx)
+	}
+	return f(context.Background())
+}
+
 // ---- Coq printers --------------------------------------------------------------------------------
 func vU(n uint64) string { return strconv.FormatUint(n, 10) + "%Z" }
 
@@ -621,13 +649,13 @@ func vLifeOne(ops []bool) vLifeRes {
 			if users == 0 && everStopped {
 				restarts++
 			}
-			e = ml.Start(context.Background(), nil)
+			e = vWithCtx(func(cx context.Context) error { return ml.Start(cx, nil) })
 			users++
 			if e != nil {
 				res.oracles = append(res.oracles, [3]string{"start-returns-error", "", e.Error()})
 			}
 		} else {
-			e = ml.Shutdown(context.Background())
+			e = vWithCtx(func(cx context.Context) error { return ml.Shutdown(cx) })
 			if (e != nil) != (users == 0) || (e != nil && !errors.Is(e, ErrShutdownNotStarted)) {
 				res.oracles = append(res.oracles, [3]string{"shutdown-error-iff-not-started", "", fmt.Sprintf("users=%d err=%v", users, e)})
 			}
@@ -666,7 +694,7 @@ func vLifeOne(ops []bool) vLifeRes {
 			res.stats["life.shutdown"]++
 		}
 	}
-	for k := 0; k < 64 && ml.Shutdown(context.Background()) == nil; k++ { // clean up whatever is still running
+	for k := 0; k < 64 && vWithCtx(func(cx context.Context) error { return ml.Shutdown(cx) }) == nil; k++ { // clean up whatever is still running
 	}
 	ml.ticker.Stop()
 	res.term = fmt.Sprintf("(CLife %s %s)", vList(opsT), vList(obsT))
@@ -755,7 +783,7 @@ func vLifeConcurrent(out *vOut, r *vRand) {
 		ml.runGCFn = func() {}
 		nusers := 2 + r.Intn(7)
 		// one keeper holds the limiter running while the others come and go concurrently
-		if e := ml.Start(context.Background(), nil); e != nil {
+		if e := vWithCtx(func(cx context.Context) error { return ml.Start(cx, nil) }); e != nil {
 			out.Oracle("start-returns-error", "concurrent", e.Error())
 		}
 		var wg sync.WaitGroup
@@ -764,11 +792,11 @@ func vLifeConcurrent(out *vOut, r *vRand) {
 			wg.Add(1)
 			go func() {
 				defer wg.Done()
-				if ml.Start(context.Background(), nil) != nil {
+				if vWithCtx(func(cx context.Context) error { return ml.Start(cx, nil) }) != nil {
 					nerr.Add(1)
 				}
 				runtime.Gosched()
-				if ml.Shutdown(context.Background()) != nil {
+				if vWithCtx(func(cx context.Context) error { return ml.Shutdown(cx) }) != nil {
 					nerr.Add(1)
 				}
 			}()
@@ -797,13 +825,13 @@ func vLifeConcurrent(out *vOut, r *vRand) {
 				out.Oracle("ticker-check-updates-refuse", "concurrent", fmt.Sprintf("want refuse=%v after 10s", want))
 			}
 		}
-		if e := ml.Shutdown(context.Background()); e != nil {
+		if e := vWithCtx(func(cx context.Context) error { return ml.Shutdown(cx) }); e != nil {
 			out.Oracle("shutdown-error-iff-not-started", "concurrent", "keeper: "+e.Error())
 		}
 		if vChecking(&cnt, false) {
 			out.Oracle("checker-runs-without-users", "concurrent", detail)
 		}
-		if e := ml.Shutdown(context.Background()); !errors.Is(e, ErrShutdownNotStarted) {
+		if e := vWithCtx(func(cx context.Context) error { return ml.Shutdown(cx) }); !errors.Is(e, ErrShutdownNotStarted) {
 			out.Oracle("shutdown-error-iff-not-started", "concurrent", fmt.Sprintf("extra shutdown: %v", e))
 		}
 		out.Stat("life.concurrent_rounds", 1)
@@ -860,11 +888,11 @@ func vSysOne(seed uint64, avoidRestart bool) vSysRes {
 				if users == 0 && everStopped {
 					restarts++
 				}
-				e = ml.Start(context.Background(), nil)
+				e = vWithCtx(func(cx context.Context) error { return ml.Start(cx, nil) })
 				users++
 				ops = append(ops, "SStart")
 			} else {
-				e = ml.Shutdown(context.Background())
+				e = vWithCtx(func(cx context.Context) error { return ml.Shutdown(cx) })
 				if (e != nil) != (users == 0) {
 					res.oracles = append(res.oracles, [3]string{"shutdown-error-iff-not-started", "", fmt.Sprintf("users=%d err=%v", users, e)})
 				}
@@ -880,9 +908,15 @@ func vSysOne(seed uint64, avoidRestart bool) vSysRes {
 		case 2:
 			rd := pool[r.Intn(len(pool))]
 			before := ml.MustRefuse()
+			prev := alloc.Load()
 			alloc.Store(rd)
 			g0 := gcs.Load()
 			ticked := vChecking(&cnt, users > 0, restarts > 0)
+			if !ticked {
+				// an undelivered tick must leave no trace: a checker started LATER would otherwise read this
+				// value on its own (the model's STick is a no-op without a running checker)
+				alloc.Store(prev)
+			}
 			refuse := ml.MustRefuse()
 			ops = append(ops, fmt.Sprintf("STick (mkTick 0%%Z 0%%Z %s %s)", vU(rd), vU(rd)))
 			if ticked {
@@ -912,7 +946,7 @@ func vSysOne(seed uint64, avoidRestart bool) vSysRes {
 			obs = append(obs, "SQueried "+vBool(ml.MustRefuse()))
 		}
 	}
-	for k := 0; k < 64 && ml.Shutdown(context.Background()) == nil; k++ {
+	for k := 0; k < 64 && vWithCtx(func(cx context.Context) error { return ml.Shutdown(cx) }) == nil; k++ {
 	}
 	ml.ticker.Stop()
 	res.term = fmt.Sprintf("(CSys %s None %s %s)", vCfg(c), vList(ops), vList(obs))
@@ -1090,7 +1124,7 @@ func vFineOne(seed uint64) vFineRes {
 		}
 		switch kind {
 		case 0:
-			e := ml.Start(context.Background(), nil)
+			e := vWithCtx(func(cx context.Context) error { return ml.Start(cx, nil) })
 			users++
 			ops = append(ops, "FStart")
 			obs = append(obs, fmt.Sprintf("FLifeRes %s None", vBool(e != nil)))
@@ -1102,7 +1136,7 @@ func vFineOne(seed uint64) vFineRes {
 				res.stats["fine.last_shutdown_with_check_in_flight"]++
 				before := ml.MustRefuse()
 				done := make(chan error, 1)
-				go func() { done <- ml.Shutdown(context.Background()) }()
+				go func() { done <- vWithCtx(func(cx context.Context) error { return ml.Shutdown(cx) }) }()
 				early := false
 				select {
 				case e = <-done:
@@ -1134,7 +1168,7 @@ func vFineOne(seed uint64) vFineRes {
 				held = false
 				res.nt = true
 			} else {
-				e = ml.Shutdown(context.Background())
+				e = vWithCtx(func(cx context.Context) error { return ml.Shutdown(cx) })
 			}
 			if (e != nil) != (users == 0) {
 				bad("shutdown-error-iff-not-started", fmt.Sprintf("users=%d err=%v", users, e))
@@ -1223,7 +1257,7 @@ func vFineOne(seed uint64) vFineRes {
 		g.mu.Unlock()
 		g.release <- heldR
 	}
-	for k := 0; k < 64 && ml.Shutdown(context.Background()) == nil; k++ {
+	for k := 0; k < 64 && vWithCtx(func(cx context.Context) error { return ml.Shutdown(cx) }) == nil; k++ {
 	}
 	ml.ticker.Stop()
 	res.term = fmt.Sprintf("(CFine %s None %s %s)", vCfg(c), vList(ops), vList(obs))
@@ -1263,6 +1297,142 @@ func vFineCases(out *vOut, r *vRand, n int) {
 	wg.Wait()
 	for _, res := range results {
 		out.Case(res.nt, res.term)
+		for _, o := range res.oracles {
+			out.Oracle(o[0], o[1], o[2])
+		}
+		for k, v := range res.stats {
+			out.Stat(k, v)
+		}
+	}
+}
+
+// ---- CCtxLife: Start with a context that ends LATER (while other users are still running) -----------
+//   ops: CStart i (a fresh cancellable context i, alternately with a deadline) | CShutdown | CCtxEnd i
+//   (cancel context i / wait for its deadline); observation per op as in CLife.
+func vCtxLifeOne(seed uint64) vLifeRes {
+	r := vNewRand(seed)
+	res := vLifeRes{stats: map[string]int{}}
+	c := &Config{CheckInterval: time.Millisecond, MemoryLimitMiB: 100, MemorySpikeLimitMiB: 10}
+	ml, err := NewMemoryLimiter(c, zap.NewNop())
+	if err != nil {
+		panic(err)
+	}
+	var cnt atomic.Int64
+	ml.readMemStatsFn = func(ms *runtime.MemStats) { cnt.Add(1); ms.Alloc = 0 }
+	ml.runGCFn = func() {}
+	type cctx struct {
+		ctx    context.Context
+		cancel func()
+		ended  bool
+	}
+	var ctxs []*cctx
+	users, restarts := 0, 0
+	everStopped := false
+	var opsT, obsT []string
+	nops := 3 + r.Intn(10)
+	for k := 0; k < nops; k++ {
+		kind := r.Pick(35, 25, 40)
+		if users == 0 && r.Bool() {
+			kind = 0
+		}
+		live := -1
+		for i, x := range ctxs {
+			if !x.ended && (live < 0 || r.Bool()) {
+				live = i
+			}
+		}
+		if kind == 2 && live < 0 {
+			kind = 0
+		}
+		var e error
+		switch kind {
+		case 0:
+			x := &cctx{}
+			if len(ctxs)%2 == 0 {
+				x.ctx, x.cancel = context.WithCancel(context.Background())
+			} else {
+				x.ctx, x.cancel = context.WithTimeout(context.Background(), time.Hour)
+			}
+			ctxs = append(ctxs, x)
+			if users == 0 && everStopped {
+				restarts++
+			}
+			e = ml.Start(x.ctx, nil)
+			users++
+			opsT = append(opsT, fmt.Sprintf("CStart %d", len(ctxs)-1))
+			res.stats["ctxlife.start"]++
+		case 1:
+			e = vWithCtx(func(cx context.Context) error { return ml.Shutdown(cx) })
+			if (e != nil) != (users == 0) {
+				res.oracles = append(res.oracles, [3]string{"shutdown-error-iff-not-started", "", fmt.Sprintf("users=%d err=%v", users, e)})
+			}
+			if e == nil {
+				users--
+				if users == 0 {
+					everStopped = true
+				}
+			}
+			opsT = append(opsT, "CShutdown")
+		default:
+			ctxs[live].cancel()
+			<-ctxs[live].ctx.Done()
+			ctxs[live].ended = true
+			opsT = append(opsT, fmt.Sprintf("CCtxEnd %d", live))
+			res.stats["ctxlife.context_ended_with_users_"+strconv.FormatBool(users > 0)]++
+		}
+		ml.refCounterLock.Lock()
+		rc := ml.refCounter
+		gor := ml.closed != nil && !vClosed(ml.closed)
+		ml.refCounterLock.Unlock()
+		checking := vChecking(&cnt, users > 0, restarts > 0)
+		obsT = append(obsT, fmt.Sprintf("(%s, %s, %s, %s)", vBool(e != nil), vZ(int64(rc)), vBool(gor), vBool(checking)))
+		switch {
+		case users == 0 && checking:
+			res.oracles = append(res.oracles, [3]string{"checker-runs-without-users", "", fmt.Sprintf("users=%d restarts=%d", users, restarts)})
+		case users > 0 && !checking:
+			res.oracles = append(res.oracles, [3]string{"checker-stopped-with-users", "", fmt.Sprintf("users=%d restarts=%d after %s", users, restarts, opsT[len(opsT)-1])})
+		}
+	}
+	for k := 0; k < 64 && ml.Shutdown(context.Background()) == nil; k++ {
+	}
+	ml.ticker.Stop()
+	for _, x := range ctxs {
+		x.cancel()
+	}
+	res.term = fmt.Sprintf("(CCtxLife %s %s)", vList(opsT), vList(obsT))
+	for i := range res.oracles {
+		res.oracles[i][1] = res.term
+	}
+	res.stats["ctxlife.scripts"]++
+	return res
+}
+
+func vCtxLifeCases(out *vOut, r *vRand, n int) {
+	seeds := make([]uint64, n)
+	for i := range seeds {
+		seeds[i] = r.U64()
+	}
+	results := make([]vLifeRes, n)
+	var wg sync.WaitGroup
+	sem := make(chan struct{}, 8)
+	for i := range seeds {
+		wg.Add(1)
+		sem <- struct{}{}
+		go func(i int) {
+			defer wg.Done()
+			defer func() { <-sem }()
+			defer func() {
+				if e := recover(); e != nil {
+					results[i] = vLifeRes{term: "(CCtxLife [] [])", stats: map[string]int{"ctxlife.panics": 1},
+						oracles: [][3]string{{"implementation-panics", fmt.Sprintf("(CCtxLife script seed %d)", seeds[i]), fmt.Sprint(e)}}}
+				}
+			}()
+			results[i] = vCtxLifeOne(seeds[i])
+		}(i)
+	}
+	wg.Wait()
+	for _, res := range results {
+		out.Case(true, res.term)
 		for _, o := range res.oracles {
 			out.Oracle(o[0], o[1], o[2])
 		}
@@ -1364,6 +1534,7 @@ func TestVerifC18(t *testing.T) {
 	vLifeConcurrent(out, vNewRand(1804))
 	vSysCases(out, vNewRand(1805), vBudget(80, 15))
 	vFineCases(out, vNewRand(1806), vBudget(80, 15))
+	vCtxLifeCases(out, vNewRand(1807), vBudget(60, 15))
 }
 
 // TestVerifC18Race is run under the race detector (separate harness entry): the concurrent parts
@@ -1385,7 +1556,7 @@ func TestVerifC18Race(t *testing.T) {
 	ml.readMemStatsFn = func(ms *runtime.MemStats) { ms.Alloc = alloc.Load() }
 	ml.runGCFn = func() {}
 	soft := ml.usageChecker.memAllocLimit - ml.usageChecker.memSpikeLimit
-	_ = ml.Start(context.Background(), nil)
+	_ = vWithCtx(func(cx context.Context) error { return ml.Start(cx, nil) })
 	var wg sync.WaitGroup
 	stop := make(chan struct{})
 	var seenTrue, seenFalse atomic.Int64
@@ -1418,7 +1589,7 @@ func TestVerifC18Race(t *testing.T) {
 	}
 	close(stop)
 	wg.Wait()
-	_ = ml.Shutdown(context.Background())
+	_ = vWithCtx(func(cx context.Context) error { return ml.Shutdown(cx) })
 	out.Stat("race.readers_saw_refusing", int(seenTrue.Load()))
 	out.Stat("race.readers_saw_accepting", int(seenFalse.Load()))
 }
